@@ -1299,6 +1299,10 @@ M('C11', 'MPO.expectation_value passes init_env_data positionally (twin)', 'tenp
   "            return self.expectation_value_finite(psi, init_env_data=init_env_data)", "            return self.expectation_value_finite(psi, init_env_data)",
   None, expect='silent')
 
+M('C11', 'original defect: MPO.from_grids reads the last grid before projecting the first', 'tenpy/networks/mpo.py',
+  "                first_grid = grids[0]\n                if len(first_grid) > 1:", "                first_grid = grids[0]\n                last_grid = grids[-1]\n                if len(first_grid) > 1:",
+  'ALIAS-ends')
+
 # ---------------------------------------------------------------- C16 / C19
 M('C16', 'GMRES restart: relative residual norm used for normalisation (round-3 seed b)', KRY,
   """        self.total_error.append([npc.norm(self.rs[-1]) / self.b_norm])
